@@ -354,17 +354,25 @@ impl DeviceControl for ControlHandle {
     fn write(&mut self, address: u64, data: &[u8]) -> ControlResult<()> {
         unwrap_or_log!(self.assert_open());
 
-        let cmd = unwrap_or_log!(cmd::WriteMem::new(address, data));
+        // A single `WriteMem` command can't carry more than `u16::MAX - 8` bytes of data,
+        // so larger data is split before it is chunked according to the maximum command length.
+        const MAXIMUM_WRITE_LENGTH: usize = u16::MAX as usize - 8;
         let maximum_cmd_length = self.config.maximum_cmd_length;
 
-        for chunk in cmd.chunks(maximum_cmd_length as usize).unwrap() {
-            let chunk_data_len = chunk.data_len();
-            let ack: ack::WriteMem = unwrap_or_log!(self.send_cmd(chunk));
+        let mut address = address;
+        for block in data.chunks(MAXIMUM_WRITE_LENGTH) {
+            let cmd = unwrap_or_log!(cmd::WriteMem::new(address, block));
 
-            if ack.length as usize != chunk_data_len {
-                let err_msg = "write mem failed: written length mismatch";
-                return Err(ControlError::Io(anyhow::Error::msg(err_msg)));
+            for chunk in cmd.chunks(maximum_cmd_length as usize).unwrap() {
+                let chunk_data_len = chunk.data_len();
+                let ack: ack::WriteMem = unwrap_or_log!(self.send_cmd(chunk));
+
+                if ack.length as usize != chunk_data_len {
+                    let err_msg = "write mem failed: written length mismatch";
+                    return Err(ControlError::Io(anyhow::Error::msg(err_msg)));
+                }
             }
+            address = address.wrapping_add(block.len() as u64);
         }
 
         Ok(())
